@@ -50,7 +50,7 @@ class C26(Prop):
     props_file = "Props/C26.v"
     preamble = ("From Coq Require Import List QArith.\nImport ListNotations.\n"
                 "From PP Require Import Model.C33 Model.C26.\nOpen Scope Q_scope.\n")
-    n_cases = (80, 600)
+    n_cases = (80, 200)
     design_ref = "DESIGN.md §5 C26"
     level_text = (
         "P-core.  Coq theorems over an exact-rational transcription of MortarGrid._init_projections, "
@@ -121,7 +121,7 @@ class C26(Prop):
                 b = rng.randint(a + 1, ny)
                 frac = [[j / nx, j / nx], [a / ny, b / ny]]
             ops = []
-            for _ in range(rng.randint(0, 4 if tier == "quick" else 6)):
+            for _ in range(rng.randint(0, 4 if tier == "quick" else 5)):
                 r = rng.random()
                 if r < 0.5:
                     which = rng.choice([["L"], ["R"], ["L", "R"], ["R", "L"]])
